@@ -586,6 +586,16 @@ func (b *TB) bin(op Op, x, y *Term) *Term {
 		if y.IsConst() && y.val >= uint64(w) && op != OpAShr {
 			return b.Const(w, 0)
 		}
+		// constant shifts are normalised to extract/concat (simplifies against concat/zext)
+		if y.IsConst() && y.val > 0 && y.val < uint64(w) && w <= 64 {
+			c := int(y.val)
+			switch op {
+			case OpShl:
+				return b.Concat(b.Extract(x, w-1-c, 0), b.Const(c, 0))
+			case OpLShr:
+				return b.ZExt(b.Extract(x, w-1, c), c)
+			}
+		}
 	}
 	return b.mk(&Term{op: op, w: w, args: []*Term{x, y}})
 }
@@ -688,6 +698,9 @@ func (b *TB) Sle(x, y *Term) *Term { return b.cmp(OpSle, x, y) }
 
 func (b *TB) Concat(hi, lo *Term) *Term {
 	w := hi.w + lo.w
+	if hi.IsConst() && hi.val == 0 {
+		return b.ZExt(lo, hi.w)
+	}
 	if hi.IsConst() && lo.IsConst() && w <= 64 {
 		return b.Const(w, hi.val<<uint(lo.w)|lo.val)
 	}
@@ -807,7 +820,8 @@ func sortSMT(w int) string {
 
 func smtName(s string) string {
 	var sb strings.Builder
-	sb.WriteString("|")
+	// prefixed so that no name can collide with a theory symbol (cvc5 rejects e.g. |sec|)
+	sb.WriteString("|v.")
 	for _, c := range s {
 		if c == '|' || c == '\\' {
 			sb.WriteRune('_')
